@@ -6,7 +6,7 @@
 EXTENDS MC_Spawning
 VARIABLE gap
 ConfsSim == {[dh |-> [h \in Hs |-> IF h = "d1" THEN DL("daemon", b, t, r, l) ELSE IF h = "d2" THEN y ELSE x], polling |-> 3, filter |-> TRUE,
-              prompt |-> TRUE, exitto |-> 2] :
+              prompt |-> TRUE, exitto |-> 2, peering |-> FALSE] :
                b \in {0, 2, 3}, t \in {0, 2, 4}, r \in {"obey", "cancel", "ignore", "selfexit"}, l \in {0, 1, 4},
                x \in {None, D("timer", 0, 0, "any")}, y \in {None, DL("daemon", 2, 3, "cancel", 0)}}
 SimInit == Init /\ gap = 1
